@@ -174,7 +174,7 @@ fn progress(idx: usize) {
 /// (50 + 50 attempts inside every start_send) cannot add up to a no-progress window. The
 /// number of such ticks in a run is finite by construction.
 #[inline]
-fn bounded_tick() {
+pub fn bounded_tick() {
     rt::with(|r| r.fp.set(r.fp.get() ^ rt::state::mix(0xB0DD_0000_0000_0000 | r.steps.get(), 0x77)));
 }
 
